@@ -145,3 +145,72 @@ verif_proof! { [C15 C08]
     #[kani::stub(crate::io::time_index::read_track, stub_read_track)]
     fn c15_timeline_extracted_image() { timeline_scenario(true, true); }
 }
+
+/// Cheap window check (quick tier): `n` active frames with symbolic timestamps, no time
+/// index manifest (entries come from the TOC), symbolic since/until, forward order,
+/// no limit. Decides the inclusive-window obligation: a frame is in the timeline iff
+/// since <= timestamp <= until.
+fn timeline_window<const N: usize>(both_bounds: bool) {
+    let mut toc = crate::memvid::lifecycle::empty_toc();
+    let mut ts = [0i64; N];
+    let mut i = 0;
+    while i < N {
+        ts[i] = kani::any();
+        toc.frames.push(mk_frame(i as u64, ts[i], FrameStatus::Active));
+        i += 1;
+    }
+    let mut mv = mk_memvid(toc, mk_header(65536));
+    let s: i64 = kani::any();
+    let u: i64 = kani::any();
+    let (since, until) = if both_bounds { (Some(s), Some(u)) } else if kani::any() { (Some(s), None) } else { (None, Some(u)) };
+    let r = build_timeline(&mut mv, None, since, until, false);
+    match &r {
+        Ok(v) => {
+            let mut n_want = 0usize;
+            let mut k = 0;
+            while k < N {
+                if since.map_or(true, |s| ts[k] >= s) && until.map_or(true, |u| ts[k] <= u) { n_want += 1; }
+                k += 1;
+            }
+            let mut j = 0;
+            while j < v.len() {
+                let id = v[j].frame_id;
+                assert!(id < N as u64, "[C15] timeline returned an unknown frame");
+                let t = ts[id as usize];
+                assert!(since.map_or(true, |s| t >= s) && until.map_or(true, |u| t <= u), "[C15] timeline returned a frame outside the since/until bounds");
+                if j > 0 { assert!(v[j - 1].frame_id < id, "[C15] timeline lists a frame twice or out of TOC order (no index)"); }
+                j += 1;
+            }
+            assert!(v.len() == n_want, "[C15] timeline does not contain every active frame within the inclusive since/until bounds exactly once");
+            kani::cover!(v.len() == N, "all frames inside the window");
+            kani::cover!(v.len() == 0, "window excludes everything");
+        }
+        Err(_) => assert!(false, "[C15] timeline failed"),
+    }
+    leak(r);
+    leak(mv);
+}
+verif_proof! { [C15]
+    #[kani::unwind(4)]
+    #[kani::use_stub_set(crate::verif_env::memvid_stubs)]
+    #[kani::stub(crate::memvid::lifecycle::Memvid::frame_preview, stub_preview)]
+    #[kani::stub(<crate::types::Frame as core::clone::Clone>::clone, crate::verif_env::stub_frame_clone)]
+    #[kani::stub(alloc::fmt::format, crate::verif_env::stub_format)]
+    fn c15_timeline_window_both_bounds_1() { timeline_window::<1>(true); }
+}
+verif_proof! { [C15]
+    #[kani::unwind(4)]
+    #[kani::use_stub_set(crate::verif_env::memvid_stubs)]
+    #[kani::stub(crate::memvid::lifecycle::Memvid::frame_preview, stub_preview)]
+    #[kani::stub(<crate::types::Frame as core::clone::Clone>::clone, crate::verif_env::stub_frame_clone)]
+    #[kani::stub(alloc::fmt::format, crate::verif_env::stub_format)]
+    fn c15_timeline_window_one_bound_1() { timeline_window::<1>(false); }
+}
+verif_proof! { [C15]
+    #[kani::unwind(5)]
+    #[kani::use_stub_set(crate::verif_env::memvid_stubs)]
+    #[kani::stub(crate::memvid::lifecycle::Memvid::frame_preview, stub_preview)]
+    #[kani::stub(<crate::types::Frame as core::clone::Clone>::clone, crate::verif_env::stub_frame_clone)]
+    #[kani::stub(alloc::fmt::format, crate::verif_env::stub_format)]
+    fn c15_timeline_window_both_bounds_2() { timeline_window::<2>(true); }
+}
